@@ -563,6 +563,9 @@ pub(crate) fn add_float_format<W, R, T>(
             }
 
             let mag = f0.abs();
+            if specs.precision.map_or(false, |p| p > u16::MAX as usize) {
+                return xerr(ManagedXError::new("precision too large", rt)?);
+            }
             if specs.ty.alternative{
                 return xerr(ManagedXError::new("no alt type available for float formatting", rt)?);
             }
